@@ -116,3 +116,95 @@ pub open spec fn sp_compress_block(cv: Seq<u32>, block: Seq<u8>, t: u64, len: u8
 pub open spec fn sp_cv_of(out16: Seq<u32>) -> Seq<u32> {
     out16.subrange(0, 8)
 }
+
+// ---- nodes: a chunk or parent just before its last compression --------------------------------
+pub struct SpOut {
+    pub cv: Seq<u32>,      // input chaining value (8 words)
+    pub block: Seq<u8>,    // 64 bytes (zero padded)
+    pub block_len: u8,
+    pub counter: u64,
+    pub flags: u8,
+}
+
+// non-root: the 32-byte chaining value of the node
+pub open spec fn sp_out_cv(o: SpOut) -> Seq<u8> {
+    sp_bytes(sp_cv_of(sp_compress_block(o.cv, o.block, o.counter, o.block_len, o.flags)))
+}
+
+// root: the k-th 64-byte block of the output stream
+pub open spec fn sp_out_root_block(o: SpOut, k: u64) -> Seq<u8> {
+    sp_bytes(sp_compress_block(o.cv, o.block, k, o.block_len, (o.flags | SP_ROOT) as u8))
+}
+
+pub open spec fn sp_zeros(n: nat) -> Seq<u8> {
+    Seq::new(n, |i: int| 0u8)
+}
+
+pub open spec fn sp_pad64(b: Seq<u8>) -> Seq<u8> {
+    b + sp_zeros((64 - b.len()) as nat)
+}
+
+// ---- chunks -------------------------------------------------------------------------------------
+// chaining value after the first nb full 64-byte blocks of chunk bytes c (CHUNK_START on the first)
+pub open spec fn sp_chunk_fold(key: Seq<u32>, c: Seq<u8>, nb: nat, t: u64, flags: u8) -> Seq<u32>
+    decreases nb,
+{
+    if nb == 0 {
+        key
+    } else {
+        let prev = sp_chunk_fold(key, c, (nb - 1) as nat, t, flags);
+        let f = if nb == 1 { (flags | SP_CHUNK_START) as u8 } else { flags };
+        sp_cv_of(sp_compress_block(prev, c.subrange(64 * (nb - 1), 64 * (nb as int)), t, 64, f))
+    }
+}
+
+// number of blocks compressed before the last block of a chunk of n bytes
+pub open spec fn sp_blocks_before_last(n: nat) -> nat {
+    if n == 0 { 0 } else { ((n - 1) / 64) as nat }
+}
+
+// The node of a chunk c (0 <= |c| <= 1024) with chunk counter t: all blocks but the last are
+// compressed, the last one (possibly empty or short, zero padded) carries CHUNK_END.
+pub open spec fn sp_chunk_out(key: Seq<u32>, c: Seq<u8>, t: u64, flags: u8) -> SpOut {
+    let nb = sp_blocks_before_last(c.len());
+    SpOut {
+        cv: sp_chunk_fold(key, c, nb, t, flags),
+        block: sp_pad64(c.subrange(64 * (nb as int), c.len() as int)),
+        block_len: (c.len() - 64 * nb) as u8,
+        counter: t,
+        flags: if nb == 0 { (flags | SP_CHUNK_START | SP_CHUNK_END) as u8 } else { (flags | SP_CHUNK_END) as u8 },
+    }
+}
+
+pub open spec fn sp_chunk_cv(key: Seq<u32>, c: Seq<u8>, t: u64, flags: u8) -> Seq<u8> {
+    sp_out_cv(sp_chunk_out(key, c, t, flags))
+}
+
+// ---- parents ------------------------------------------------------------------------------------
+pub open spec fn sp_parent_out(l: Seq<u8>, r: Seq<u8>, key: Seq<u32>, flags: u8) -> SpOut {
+    SpOut { cv: key, block: l + r, block_len: 64, counter: 0, flags: (flags | SP_PARENT) as u8 }
+}
+
+pub open spec fn sp_parent_cv(l: Seq<u8>, r: Seq<u8>, key: Seq<u32>, flags: u8) -> Seq<u8> {
+    sp_out_cv(sp_parent_out(l, r, key, flags))
+}
+
+// ---- the many-inputs kernel interface (hash1 of the paper's "hash_many") -----------------------
+// N-byte input (N a multiple of 64): all blocks compressed in sequence with the same counter,
+// flags_start on the first block, flags_end on the last.
+pub open spec fn sp_hash1_fold(key: Seq<u32>, input: Seq<u8>, nb: nat, total: nat, t: u64, flags: u8, fs: u8, fe: u8) -> Seq<u32>
+    decreases nb,
+{
+    if nb == 0 {
+        key
+    } else {
+        let prev = sp_hash1_fold(key, input, (nb - 1) as nat, total, t, flags, fs, fe);
+        let f1 = if nb == 1 { (flags | fs) as u8 } else { flags };
+        let f = if nb == total { (f1 | fe) as u8 } else { f1 };
+        sp_cv_of(sp_compress_block(prev, input.subrange(64 * (nb - 1), 64 * (nb as int)), t, 64, f))
+    }
+}
+
+pub open spec fn sp_hash1(input: Seq<u8>, key: Seq<u32>, t: u64, flags: u8, fs: u8, fe: u8) -> Seq<u8> {
+    sp_bytes(sp_hash1_fold(key, input, input.len() / 64, input.len() / 64, t, flags, fs, fe))
+}
